@@ -88,6 +88,7 @@ def cond_holds(c, v):
 
 WHEN_ISO, WHEN_TS = '2021-05-06T07:08:09Z', 1620284889
 N_FIELDS = [('my_val', 7, 0), ('when', 'WHEN', 'WHEN0'), ('dflt', 5, 5), ('a3', 3, 1), ('b4', 4, 1)]
+R_FIELDS = [('my_val', 7, 0), ('when', 'WHEN', 'WHEN0'), ('dflt', 5, 5)]
 
 
 def tag_key_of(e):
@@ -198,7 +199,7 @@ def factors(engine, rng, n_random_shapes):
     f['nested_recursive'] = ['unset', False]
     f['tag'] = [(a, b) for a in (0, 1) for b in (0, 1)]                   # (root tag, nested tag)
     f['keymap'] = [(a, b) for a in (0, 1) for b in (0, 1)]
-    f['bare'] = ['none', 'root', 'nested']                                  # class without any Meta when nothing is set
+    f['bare'] = ['none', 'none', 'none', 'root', 'nested', 'both']             # a class without any Meta (get_meta -> AbstractMeta)
     f['style'] = ['inner', 'func']
     f['catchall'] = [False, True]
     f['probe'] = ['basic', 'basic', 'union']
@@ -279,9 +280,9 @@ def mk_config(engine, f, shapes, row, rng, bvals):
         root['v1'] = True
     cfg = {'engine': engine, 'style': lv['style'], 'shape': shape, 'probe': probe, 'catchall': lv['catchall'],
            'root': root, 'nested': nested, 'mid': None}
-    if lv['bare'] == 'root' and not root:
+    if lv['bare'] in ('root', 'both') and engine != 'v1load':
         cfg['root'] = None
-    if lv['bare'] == 'nested' and not nested:
+    if lv['bare'] in ('nested', 'both') and 'union' not in shape:
         cfg['nested'] = None
     if engine == 'v1load' and cfg['nested'] is not None:
         cfg['nested']['v1'] = True      # a class with v1 settings is a v1 class on its own as well
@@ -372,6 +373,11 @@ def check_dump(cfg, res):
     exp = expected_dump(cfg)
     if sorted(map(json.dumps, got)) != sorted(json.dumps([k, v]) for k, v in exp):
         return 'nested dump %r, expected under effective %r' % (got, exp)
+    # the root's own part behaves under the root's own Meta
+    got_r = norm_dump(r['ok']['root'])
+    exp_r = ref_dump(cfg['root'] or {}, R_FIELDS)
+    if sorted(map(json.dumps, got_r)) != sorted(json.dumps([k, v]) for k, v in exp_r):
+        return 'root part of the dump %r, expected under its own Meta %r' % (got_r, exp_r)
     return None
 
 
@@ -431,11 +437,11 @@ def gen_configs(ctx):
             # single-word wrapper keys (n, inner) are spelled the same under these cases; PASCAL would rename them
             bvals['v1_key_case'] = rng.choice([['CAMEL', 'KEBAB'], ['SNAKE', 'CAMEL'], ['KEBAB', 'SNAKE']])
         f, shapes = factors(engine, rng, 6 if quick else 40)
-        rows = pairwise_rows(f, rng, extra_random=40 if quick else 1500)
+        rows = pairwise_rows(f, rng, extra_random=40 if quick else 800)
         for row in rows:
             cfgs.append(mk_config(engine, f, shapes, row, rng, bvals))
         if not quick:   # full product shape x recursive on sampled rows
-            for row in rng.sample(rows, 60):
+            for row in rng.sample(rows, 30):
                 for si in range(len(shapes)):
                     for ri in range(3):
                         r2 = dict(row); r2['shape'] = si; r2['recursive'] = ri
@@ -543,6 +549,7 @@ def nontrivial(cfg):
 
 def run(ctx):
     # ---- listed findings: replay the witnesses ----
+    resolved = set()
     for f in ctx.findings():
         w = f.get('witness')
         if not isinstance(w, dict) or 'cfg' not in w or f['id'] not in (F22_ID,):
@@ -550,6 +557,8 @@ def run(ctx):
         res = ctx.impl('c12', {'configs': [w['cfg']], 'jobs': 1})['results'][0]
         bad = check(w['cfg'], res)
         ctx.count(1, key='witness:' + f['id'])
+        if bad is None:
+            resolved.add(f['id'])      # repaired: the faithful model no longer applies inside that region
         ctx.known_finding(f['id'], still_fails=bad is not None,
                           what='%s [observed: %s]' % (f['what'], (bad or 'behaves as effective')[:160]))
 
@@ -606,6 +615,9 @@ def run(ctx):
                                {'cfg': cfg, 'model_impl': v_impl, 'model_spec': v_spec})
             if r23:
                 ctx.hist('model_comparison_skipped', F23_ID)
+                continue
+            if r22 and F22_ID in resolved:
+                ctx.hist('model_comparison_skipped_resolved_finding', F22_ID)
                 continue
             e_model = decode_vector(v_impl, cfg['engine'])
             if cfg['probe'] != 'union':
